@@ -87,3 +87,20 @@ Example run_terminal_example :
   term_out (snd (run_ttasks MSys tks init_c)) = [3; 9]%N /\
   term_err (snd (run_ttasks MSys tks init_c)) = [4; 4]%N.
 Proof. vm_compute. auto. Qed.
+
+(* sys: what is not written at Python level (descriptor writes, child processes) goes to the
+   real stream untouched, in order; tee-sys captures exactly what sys captures *)
+Theorem sys_passes_lower_levels s ws :
+  passthrough_text MSys s ws =
+  flat_map (fun w => if stream_eqb (w_stream w) s && match w_level w with LPy => false | _ => true end
+                     then w_data w else []) ws.
+Proof.
+  unfold passthrough_text. induction ws as [|w r IH]; cbn [flat_map]; [reflexivity|].
+  rewrite IH. destruct (stream_eqb (w_stream w) s); destruct (w_level w); reflexivity.
+Qed.
+
+Theorem tee_captures_like_sys s ws : captured_text MTee s ws = captured_text MSys s ws.
+Proof.
+  unfold captured_text. induction ws as [|w r IH]; cbn [flat_map]; [reflexivity|].
+  rewrite IH. destruct (stream_eqb (w_stream w) s); destruct (w_level w); reflexivity.
+Qed.
